@@ -182,10 +182,22 @@ func (w *World) provideOpts(f *Func, info *dig.ProvideInfo) []dig.ProvideOption 
 	if info != nil {
 		o = append(o, dig.FillProvideInfo(info))
 	}
-	if f.LocPC && f.Cat >= 0 && len(catFns) > 1 {
-		o = append(o, dig.LocationForPC(reflect.ValueOf(catFns[(f.Cat+1)%len(catFns)]).Pointer()))
+	if t := locTarget(f); t >= 0 {
+		o = append(o, dig.LocationForPC(reflect.ValueOf(catFns[t]).Pointer()))
 	}
 	return o
+}
+
+// locTarget is the declared function whose location a constructor registered
+// with LocationForPC claims (-1: option not used).
+func locTarget(f *Func) int {
+	if !f.LocPC || len(catFns) < 2 {
+		return -1
+	}
+	if f.Cat >= 0 {
+		return (f.Cat + 1) % len(catFns)
+	}
+	return (f.ID*7 + 3) % len(catFns)
 }
 
 func inputsStr(in []*dig.Input) []string {
